@@ -252,4 +252,18 @@ def BzW.run : BzW → List BzOp → BzW × List BzRes
     let r2 := BzW.run r.1 ops
     (r2.1, r.2 :: r2.2)
 
+/-- sinks attached by Reset have not failed before. -/
+def BzOp.fresh : BzOp → Prop
+  | .reset sk => sk.failed = false
+  | _ => True
+
+def BzOp.noReset : BzOp → Prop
+  | .reset _ => False
+  | _ => True
+
+def BzRes.isErr : BzRes → Prop
+  | .write _ e => e ≠ none
+  | .close e => e ≠ none
+  | .reset => False
+
 end Compress.Bzip2
